@@ -2,6 +2,7 @@ package sim
 
 import (
 	"fmt"
+	"runtime"
 	"hash/fnv"
 	"sort"
 	"strings"
@@ -167,8 +168,9 @@ type Sim struct {
 	conns    []*Conn
 	netParks map[string]int
 	Unwind   func() // called when the incarnation is turned into a zombie
-	NoYield bool
-	tickW   int
+	NoYield  bool
+	tickW    int
+	TickTime time.Duration // simulated time passed in tick actions and injected stalls
 }
 
 var simEpoch = time.Date(2000, 1, 1, 0, 0, 0, 0, time.UTC)
@@ -192,7 +194,13 @@ func (s *Sim) name(gid uint64) string {
 }
 
 func (s *Sim) hook(label string) {
-	if s.dead || s.NoYield {
+	if s.dead {
+		// a zombie's polling loop must not starve the goroutines that
+		// would end it (one P, no preemption)
+		runtime.Gosched()
+		return
+	}
+	if s.NoYield {
 		return
 	}
 	gid := verifsim.Goid()
@@ -454,7 +462,9 @@ var tickSteps = []time.Duration{time.Millisecond, 20 * time.Millisecond, 250 * t
 
 func (s *Sim) tick() {
 	d := tickSteps[s.W.Tape.Draw("tick", len(tickSteps))]
+	t0 := time.Now()
 	s.sleep(d)
+	s.TickTime += time.Since(t0)
 }
 
 // sleep lets simulated time pass, but never beyond the next deadline the
